@@ -13,6 +13,7 @@ sys.path.insert(0, os.path.join(os.path.dirname(os.path.dirname(os.path.abspath(
 import gen_samples  # noqa
 
 PROP = "C17"
+SUBCHECKS = ["C17G"]   # user-level end-to-end: ragc create TEXT; ragc getset names = FASTA of the normalised input (props/C17G.v)
 AREAS = []
 THEOREMS = ["requested_names", "requested_prefix_archive_order", "starts_with_spec", "getset_composes_stdout",
             "getset_composes_file", "getset_unknown_nonzero", "getset_zero_complete", "failures_nonzero",
